@@ -1,9 +1,10 @@
 (* C01 — exact inference returns the true marginals of the product distribution.
    Model: Model/BP.v (GraphicalModel.belief_propagation line by line over a zero-sum-free semifield; log-space
    + / - / logsumexp of the code are * / guarded division / sum; -inf is 0).  *)
-From Coq Require Import List Arith Bool.
+From Coq Require Import List Arith Bool Lia.
 Import ListNotations.
 Require Import PGM.Base.Alg PGM.Base.Sums PGM.Base.Qnn PGM.Model.BP PGM.Proofs.BPrunP PGM.Proofs.JTP PGM.Proofs.BPlinkP.
+Require Import PGM.Base.PyFactor PGM.Gen.BP_gen PGM.Proofs.BPGenP.
 
 Section C01.
 Variable R : SF.                       (* any zero-sum-free semifield: the non-negative reals, the non-negative rationals *)
@@ -41,6 +42,35 @@ Corollary C01_schedule_independent sch sch' total c0 c x :
   @marginal R shape D ncl scope psi sch total c0 c x = @marginal R shape D ncl scope psi sch' total c0 c x.
 Proof. intros. rewrite !C01_exact; auto. Qed.
 
+(* ---- THE SAME THEOREM ABOUT THE DEFINITION GENERATED FROM THE SOURCE ----
+   Gen/BP_gen.v is regenerated from GraphicalModel.belief_propagation (src/mbi/graphical_model.py) on every run by
+   translator/py2gallina_bp.py (statements, dictionary reads/writes, factor operations, the membership test selecting the
+   division, the normalisation loop all come from the AST; log space is read in the semifield as in Model/BP.v).  Its loop body
+   is proved to BE the model's step and its result the model's marginal (Proofs/BPGenP.v); so exactness holds of the generated
+   function: fed the materialised potentials, with sep_axes[(i,j)] listing what clique i shares with clique j, it returns at
+   every clique the brute-force marginal of the normalised product scaled to the total (and logZ = log of the total mass). *)
+Variable sep_axes : nat -> nat -> list nat.
+Hypothesis sep_ok : forall i j a, In a (scope i) -> (In a (sep_axes i j) <-> In a (scope j)).
+Theorem C01_src_exact sch total c x :
+  valid_sched nbrs [] sch -> (forall c k, In k (nbrs c) -> In (k, c) sch) ->
+  (forall c, c < ncl -> rootokb D ncl scope nbrs sch c = true) -> c < ncl -> valid shape x ->
+  match @belief_propagation R shape D ncl scope sep_axes sch total (map (fun c => @mat R shape D (psi c)) (seq 0 ncl)) false with
+  | inr beliefs => @lk R D (nth c beliefs (@Leaf R (zero R))) x = @brute R shape D ncl psi total (scope c) x
+  | inl _ => False
+  end.
+Proof. intros V C RO Hc Vx. pose proof (bp_gen_is_model R shape D ncl scope sep_axes psi shape_pos sep_ok sch total c x Hc Vx) as G.
+  destruct (@belief_propagation R shape D ncl scope sep_axes sch total (map (fun c0 => @mat R shape D (psi c0)) (seq 0 ncl)) false) as [z|b]; [exact G|].
+  rewrite G. apply C01_exact; auto. lia. Qed.
+Theorem C01_src_logZ sch total :
+  @belief_propagation R shape D ncl scope sep_axes sch total (map (fun c => @mat R shape D (psi c)) (seq 0 ncl)) true
+  = inl (@Zof R shape D scope (@run R shape D scope sch (@init R shape D ncl psi)) 0).
+Proof. exact (bp_gen_logZ_is_model R shape D ncl scope sep_axes psi shape_pos sep_ok sch total). Qed.
+(* the generated loop body is the model's step, for every state and message *)
+Theorem C01_src_step_is_model_step m b i j :
+  @belief_propagation_loop1 R shape D scope sep_axes (m, b) (i, j)
+  = (sent (@step R shape D scope {| belt := b; sent := m |} (i, j)), belt (@step R shape D scope {| belt := b; sent := m |} (i, j))).
+Proof. exact (loop1_is_step R shape D scope sep_axes shape_pos sep_ok m b i j). Qed.
+
 (* the boolean schedule check used at run time is sound *)
 Theorem C01_schedule_check_sound sch : vschedb nbrs [] sch = true -> valid_sched nbrs [] sch.
 Proof. exact (vschedb_spec nbrs sch []). Qed.
@@ -48,6 +78,9 @@ End C01.
 Print Assumptions C01_exact.
 Print Assumptions C01_schedule_independent.
 Print Assumptions C01_schedule_check_sound.
+Print Assumptions C01_src_exact.
+Print Assumptions C01_src_logZ.
+Print Assumptions C01_src_step_is_model_step.
 
 (* the semifield hypotheses are satisfiable: the non-negative rationals the model is executed on *)
 Example C01_instance : SF. Proof. exact QnnSF. Qed.
